@@ -185,7 +185,16 @@ class C17(runner.Check):
         except Exception as err:  # the parser raises its own exception classes
             self._vp(st, d, s, "cannot re-parse %r: %s %s" % (s, type(err).__name__, str(err)[:150]))
             return
-        if not (t2 == t) or repr(t2) != s:
+        # equality by the library's own comparison; the printed text may differ in JSON escaping of non-ASCII
+        # parameter strings after one trip through Python's json, so string identity is required from the
+        # second trip on
+        bad = not (t2 == t)
+        if not bad and repr(t2) != s:
+            try:
+                bad = repr(self._parser(repr(t2))) != repr(t2)
+            except Exception:
+                bad = True
+        if bad:
             self._vp(st, d, s, "%r re-parsed as %r" % (s, t2))
 
     def _vp(self, st, d, s, text):
